@@ -37,9 +37,21 @@ var c39Dir string
 func c39Setup() {
 	c39Dir = filepath.Join(os.Getenv("VERIF_SCRATCH"), "c39lib")
 	os.MkdirAll(c39Dir, 0o755)
-	os.WriteFile(filepath.Join(c39Dir, "ma.elv"), []byte("var v = a\nfn f { put fa }\n"), 0o644)
-	os.WriteFile(filepath.Join(c39Dir, "mb.elv"), []byte("var v = b\n"), 0o644)
-	os.WriteFile(filepath.Join(c39Dir, "mc.elv"), []byte("use ma\nvar v = c$ma:v\n"), 0o644)
+	// The master and all worker processes call this; a file is only ever created
+	// complete (write + rename), never rewritten in place, so that a worker that
+	// is reading a module never sees a truncated file.
+	write := func(name, content string) {
+		path := filepath.Join(c39Dir, name)
+		if old, err := os.ReadFile(path); err == nil && string(old) == content {
+			return
+		}
+		tmp := fmt.Sprintf("%s.%d.tmp", path, os.Getpid())
+		os.WriteFile(tmp, []byte(content), 0o644)
+		os.Rename(tmp, path)
+	}
+	write("ma.elv", "var v = a\nfn f { put fa }\n")
+	write("mb.elv", "var v = b\n")
+	write("mc.elv", "use ma\nvar v = c$ma:v\n")
 }
 
 func c39Scens() []*c39Scen {
